@@ -831,4 +831,25 @@ theorem invB_iff (s : PState) : invB s = true ↔ Inv s := by
     intro m hm
     exact ⟨⟨fun p hp => h.refs m hm p hp, (h.bounds m hm).1⟩, (h.bounds m hm).2⟩
 
+theorem lastAcked_mono (a : Nat) (t : List Op) : a ≤ lastAcked a t := by
+  induction t generalizing a with
+  | nil => exact Nat.le_refl _
+  | cons op t ih =>
+    simp only [lastAcked, List.foldl_cons]
+    cases op with
+    | ack c => exact Nat.le_trans (Nat.le_max_left a c) (ih _)
+    | _ => exact ih _
+
+theorem le_lastAcked_of_mem (a : Nat) (t : List Op) (c : Nat) (h : Op.ack c ∈ t) : c ≤ lastAcked a t := by
+  induction t generalizing a with
+  | nil => cases h
+  | cons op t ih =>
+    simp only [lastAcked, List.foldl_cons]
+    rcases List.mem_cons.mp h with e | h'
+    · subst e
+      exact Nat.le_trans (Nat.le_max_right a c) (lastAcked_mono _ t)
+    · cases op with
+      | ack c' => exact ih _ h'
+      | _ => exact ih _ h'
+
 end TantivyModel.CommitProtocol
